@@ -16,7 +16,7 @@ T = 3600
 
 def run(ctx):
     drv = ctx.build("c09")
-    for cfg, pad in ctx.pick([("trie/MCRangeProof", 1), ("trie/MCRangeProof2", 0)],
+    for cfg, pad in ctx.pick([("trie/MCRangeProofQuick", 1), ("trie/MCRangeProof2Quick", 0)],
                              [("trie/MCRangeProofThorough", 1), ("trie/MCRangeProof2Thorough", 0)]):
         res = ctx.model_check("trie/MCRangeProof", cfg, tags=("CASE",), timeout=T * 2, workers=4, name=os.path.basename(cfg))
         rows = res.lines.get("CASE", [])
@@ -30,5 +30,5 @@ def run(ctx):
     ok, consumed, total, r = ctx.validate("trie/RangeProofTrace", tp, ntraces=s["traces"], timeout=T * 2)
     if not ok:
         ctx.reject_trace("trie/RangeProofTrace", tp, consumed, r)
-    return ctx.finish(rule="MC: all tries with <=2 (thorough 3) entries over 8 three-nibble / 9 two-nibble keys x all start keys x all runs and single tamperings; R: the whole verdict table; V: random 32-byte-key tries",
+    return ctx.finish(rule="MC: all tries with <=2-3 entries over 8 three-nibble / 4-9 two-nibble keys x all start keys x all runs and single tamperings; R: the whole verdict table; V: random 32-byte-key tries",
                       assumptions=["hashes opaque and injective in the model", "proof databases consist of genuine trie nodes", "fixed-length keys"])
